@@ -407,6 +407,44 @@ impl Image {
                 .collect(),
         )
     }
+    /// `traverse(start, dir, depth, ty)` as the set of existing edges implies: the nodes within `depth`
+    /// hops (an undirected edge can be walked from either end), ascending
+    fn spec_traverse(&self, start: u64, dir: &str, depth: usize, ty: Option<u64>) -> Option<Vec<u64>> {
+        if !self.nodes.contains_key(&start) {
+            return None;
+        }
+        let outgoing = dir == "out" || dir == "both";
+        let incoming = dir == "in" || dir == "both";
+        let mut seen: BTreeSet<u64> = BTreeSet::new();
+        seen.insert(start);
+        let mut frontier = vec![start];
+        for _ in 0..depth {
+            let mut next = Vec::new();
+            for n in &frontier {
+                for r in self.edges.values() {
+                    if !r.ok || ty.map_or(false, |t| r.ty != t.to_string()) {
+                        continue;
+                    }
+                    let mut step = |from: u64, to: u64| {
+                        if from == *n && seen.insert(to) {
+                            next.push(to);
+                        }
+                    };
+                    if outgoing || !r.directed {
+                        step(r.src, r.dst);
+                    }
+                    if incoming || !r.directed {
+                        step(r.dst, r.src);
+                    }
+                }
+            }
+            if next.is_empty() {
+                break;
+            }
+            frontier = next;
+        }
+        Some(seen.into_iter().filter(|n| self.nodes.contains_key(n)).collect())
+    }
     fn spec_degree_by_type(&self, n: u64, ty: u64) -> Option<(usize, usize)> {
         if !self.nodes.contains_key(&n) {
             return None;
@@ -819,6 +857,11 @@ fn run_script(ops: &[Op], queries: bool, m: &mut Model, rep: Option<&mut Report>
                 let b = m.ask(&format!("trav {n} {dir} {depth} {tys}"));
                 if a != b {
                     return Some(SeqFail { at: i, what: format!("trav {n} {dir} {depth} {tys}: impl={a} model={b}"), violation: None });
+                }
+                let spec = im.spec_traverse(n, dir, depth, ty).map_or("err node_not_found".to_string(), |v| format!("ok {}", show_ids(&v)));
+                if a != spec {
+                    let w = format!("traverse({n},{dir},depth {depth},{tys}) = {a}, edge set implies {spec}");
+                    return Some(SeqFail { at: i, what: w.clone(), violation: Some(("graph_engine.traverse/not_what_edge_set_implies".into(), w)) });
                 }
                 if qr.chance(1, 2) {
                     if let Some(r) = rep.as_deref_mut() {
